@@ -190,6 +190,9 @@ func (os *ObjectStream) GetObjectByIndex(index int) (Object, int, error) {
 	}
 
 	// Calculate the actual offset in the decoded data
+	if os.offsets[index].Offset < 0 || os.offsets[index].Offset > len(os.decoded) {
+		return nil, 0, fmt.Errorf("invalid offset %d for object at index %d", os.offsets[index].Offset, index)
+	}
 	offset := os.first + os.offsets[index].Offset
 
 	// Determine the end of this object's data
@@ -204,7 +207,9 @@ func (os *ObjectStream) GetObjectByIndex(index int) (Object, int, error) {
 	if offset >= len(os.decoded) {
 		return nil, 0, fmt.Errorf("object offset %d exceeds decoded data length %d", offset, len(os.decoded))
 	}
-	if endOffset > len(os.decoded) {
+	if endOffset > len(os.decoded) || endOffset < offset {
+		// The next entry does not bound this object (damaged or unordered
+		// header): the parser stops at the end of the object anyway.
 		endOffset = len(os.decoded)
 	}
 
